@@ -79,9 +79,9 @@ func condPolarity(cond ssa.Value, src srcPred, kind string, depth int) (found bo
 					}
 				}
 			}
-			if kind == "eq" {
+			if kind == "eq" || kind == "ne" {
 				if derivesFrom(x.X, src, true) || derivesFrom(x.Y, src, true) {
-					return true, eq
+					return true, eq == (kind == "eq")
 				}
 			}
 		}
